@@ -2,6 +2,8 @@ import CppUModel.Proofs.Mock
 import CppUModel.Proofs.MockLazy
 import CppUModel.Proofs.MockIop
 import CppUModel.Proofs.MockOut
+import CppUModel.Model.MockParam
+import CppUModel.Props.C09
 /-!
 # C08 — the mock verdict is exact
 
@@ -430,6 +432,38 @@ theorem unfulfilled_in_any_scope_fails (w : World) (sc : Scope) (e : Exp)
     exact ⟨e, ⟨sc, hsc, he⟩, by simp [Exp.isFulfilled, hopen]⟩
   simp [endCheck, this]
 
+/-! ### parameter values: composition with the C09 value model -/
+
+/-- **param_equal_iff_same_integer.** The matching model stores parameter values in the normal
+    form `paramKey` and compares them structurally; for two integer values of any two of the six
+    integer types that is exactly `MockNamedValue::equals` (the regenerated `equalsGen`), and both
+    hold iff the two values denote the same mathematical integer.  (From C09's `equals_int_iff`;
+    an edit of an integer branch of `equals` in the source breaks that obligation and this one.) -/
+theorem param_equal_iff_same_integer (a b : MVal) (ha : a.isInt = true) (hb : b.isInt = true) :
+    (Gen.MockEquals.equalsGen a b = true ↔ paramKey a = paramKey b) ∧
+    (paramKey a = paramKey b ↔ denote? a = denote? b) := by
+  have hk : ∀ m : MVal, m.isInt = true → ∃ z, denote? m = some z ∧ paramKey m = Val.int z := by
+    intro m hm
+    cases m <;> simp [MVal.isInt] at hm <;> exact ⟨_, rfl, rfl⟩
+  obtain ⟨x, hx, hxk⟩ := hk a ha
+  obtain ⟨y, hy, hyk⟩ := hk b hb
+  have h2 : paramKey a = paramKey b ↔ denote? a = denote? b := by
+    rw [hxk, hyk, hx, hy]
+    constructor
+    · intro h; cases h; rfl
+    · intro h; cases h; rfl
+  exact ⟨(equals_int_iff a b ha hb).trans h2.symm, h2⟩
+
+/-- an integer value never equals a non-integer one, in the code and in the model -/
+theorem param_int_ne_nonint (a b : MVal) (hwb : b.WF) (ha : a.isInt = true) (hb : b.isInt = false) :
+    Gen.MockEquals.equalsGen a b = false ∧ paramKey a ≠ paramKey b := by
+  refine ⟨(equals_int_nonint_false a b hwb ha hb).1, ?_⟩
+  have hka : ∃ z, paramKey a = Val.int z := by
+    cases a <;> simp [MVal.isInt] at ha <;> exact ⟨_, rfl⟩
+  obtain ⟨z, hz⟩ := hka
+  rw [hz]
+  cases b <;> simp [MVal.isInt] at hb <;> simp [paramKey, denote?]
+
 /-! ### the hypotheses are what the API produces -/
 
 /-- `expectOneCall` / `expectNCalls` / `expectNoCall` with any modifiers leave clean matching
@@ -530,6 +564,11 @@ def scopesW : World :=
     subs := [(Scope.fresh "s1").expectN 1 "f" [], (Scope.fresh "s2").expectN 0 "f" []] }
 example : (scopesW.check "").2 = some "Mock Failure: Expected call WAS NOT fulfilled." := by decide
 example : (scopesW.left "").2.2 = true := by decide
+
+/-- expected `long` 2^32+5 is not the actual `unsigned` 5, but is the actual `unsigned long long` 2^32+5 -/
+example : paramKey (.long (BitVec.ofInt 64 4294967301)) ≠ paramKey (.uint (BitVec.ofInt 32 5)) := by decide
+example : paramKey (.long (BitVec.ofInt 64 4294967301)) = paramKey (.ullong (BitVec.ofInt 64 4294967301)) := by decide
+example : paramKey (.int (BitVec.ofInt 32 (-1))) ≠ paramKey (.ulong (BitVec.ofInt 64 18446744073709551615)) := by decide
 
 /-- the same expectations declared under `strictOrder()` -/
 def sxA : Exp := (Exp.new "foo" 2 1 2).addSeg (.inp "a" (.int 1)) |>.addSeg (.inp "b" (.int 2))
